@@ -18,13 +18,13 @@ pub fn property() -> Property {
     Property {
         id: "C20",
         level: "exploration",
-        rule: "family `session_bytes` (Lab-M, mutational): a generated frame sequence for an established real session in either role - every command for every role, stream ids {0, 2, 3, 4, 0xFFFFFFFF}, payloads up to a few KiB, settings payloads (text, binary, huge values), pushed padding schemes (parsable with sizes up to 2^63-1, unparsable) - mutated by bit flips, truncation, duplication, reordering and length-field corruption, or raw random bytes; delivered in generated fragments; followed by normal use of a sibling stream opened beforehand and of the write path (so that a poisoned scheme is exercised). Monitors: panics in any task (process-wide hook), largest single allocation, virtual-time quiescence (a spinning task stops the virtual clock: real-time watchdog, confirmed by re-running the saved case in a child process), every call returns under the virtual watchdog; afterwards the session is either closed with its waiters released or the sibling still transfers its bytes exactly and the outgoing wire still parses. Family `parsers`: arbitrary and mutated bytes in arbitrary chunking into the private destination / UDP-over-TCP parsers (H5), differential with the reference where the input is valid. Family `http_listener` (Lab-S): mutated and random header blocks against the real HTTP listener with a healthy neighbour and a fresh request afterwards. Non-trivial = input that differs from valid traffic and selects >= 2 distinct frame handlers (session_bytes), or is not rejected at its first byte (parsers/listener). Distinct = distinct serialized case. The libFuzzer targets in /verif/fuzz feed the same oracles from bytes in the thorough tier.",
+        rule: "family `session_bytes` (Lab-M, mutational): a generated frame sequence for an established real session in either role - every command for every role, stream ids {0, 2, 3, 4, 0xFFFFFFFF}, payloads up to a few KiB, settings payloads (text, binary, huge values), pushed padding schemes (parsable with sizes up to 2^63-1, unparsable) - mutated by bit flips, truncation, duplication, reordering and length-field corruption, or raw random bytes; delivered in generated fragments; followed by normal use of a sibling stream opened beforehand and of the write path (so that a poisoned scheme is exercised). Monitors: panics in any task (process-wide hook), largest single allocation, virtual-time quiescence (a spinning task stops the virtual clock: real-time watchdog, confirmed by re-running the saved case in a child process), every call returns under the virtual watchdog; afterwards the session is either closed with its waiters released or the sibling still transfers its bytes exactly and the outgoing wire still parses. Family `parsers`: arbitrary and mutated bytes in arbitrary chunking into the private destination / UDP-over-TCP parsers (H5), differential with the reference where the input is valid. Family `http_head` (pure): well-formed requests and a table of hostile request lines / host values, mutated by overwrites, insertions of multi-byte and separator sequences at every position, truncation, or raw bytes, into the HTTP front-end's header-end finder and parse+rewrite functions (H6): no panic, no oversized allocation, header end = first CRLFCRLF (what becomes of a malformed request that is accepted is judged at the listener). Family `http_listener` (Lab-S): mutated and random header blocks against the real HTTP listener with a healthy neighbour and a fresh request afterwards. Non-trivial = input that differs from valid traffic and selects >= 2 distinct frame handlers (session_bytes), or is not rejected at its first byte (parsers/listener). Distinct = distinct serialized case. The libFuzzer targets in /verif/fuzz feed the same oracles from bytes in the thorough tier.",
         assumptions: vec![
             "tokio swallows panics of spawned tasks: they are counted by a process-wide hook on the worker's own thread (current-thread runtime)",
             "a peer may legitimately address the sibling stream or leave its byte stream inside an unfinished frame: the sibling oracle applies only when the hostile bytes end on a frame boundary and do not address the sibling",
             "server sessions in Lab-M have no dial handler attached (streams surface to the harness), so fuzzed destinations never reach a socket",
         ],
-        families: vec![(Box::new(SessFam), 40_000, 2_000_000), (Box::new(ParseFam), 200_000, 4_000_000), (Box::new(HttpFam), 400, 6_000), (Box::new(ServerTunnelFam), 300, 6_000)],
+        families: vec![(Box::new(SessFam), 40_000, 2_000_000), (Box::new(ParseFam), 200_000, 4_000_000), (Box::new(HeadFam), 100_000, 3_000_000), (Box::new(HttpFam), 400, 6_000), (Box::new(ServerTunnelFam), 300, 6_000)],
     }
 }
 
@@ -517,6 +517,162 @@ impl Family for ParseFam {
         cuts.sort_unstable();
         cuts.dedup();
         check_parser(case.which, &case.bytes, &cuts)
+    }
+}
+
+// ------------------------------------------------------------------------------------------
+// family `http_head` (pure): hostile header blocks into the HTTP front-end's private parser
+
+#[derive(Clone, Debug, Serialize, Deserialize)]
+pub struct HeadCase {
+    /// a well-formed request to start from, or None for `raw`
+    pub base: Option<crate::reference::http::ReqGen>,
+    /// index into a table of hostile request lines / host values (used when `base` is None)
+    pub template: u8,
+    pub raw: Vec<u8>,
+    /// (position, byte) overwrites
+    pub flips: Vec<(u16, u8)>,
+    /// (position, which) insertions of multi-byte / control sequences
+    pub inserts: Vec<(u16, u8)>,
+    pub truncate: Option<u16>,
+}
+
+pub struct HeadFam;
+
+const HOSTILE_HEADS: &[&str] = &[
+    "GET http:// HTTP/1.1\r\n\r\n",
+    "GET http://:80/ HTTP/1.1\r\n\r\n",
+    "GET http://[::1/ HTTP/1.1\r\n\r\n",
+    "GET http://]:/ HTTP/1.1\r\n\r\n",
+    "GET http://h:99999/ HTTP/1.1\r\n\r\n",
+    "GET http://h:/ HTTP/1.1\r\n\r\n",
+    "GET / HTTP/1.1\r\nHost:\r\n\r\n",
+    "GET / HTTP/1.1\r\nHost: :\r\n\r\n",
+    "GET / HTTP/1.1\r\nHost: [\r\n\r\n",
+    "GET / HTTP/1.1\r\nHost: ]:80\r\n\r\n",
+    "GET / HTTP/1.1\r\nHost: a:b:c\r\n\r\n",
+    "GET / HTTP/1.1\r\nhos\u{e9}: x\r\n\r\n",
+    "GET / HTTP/1.1\r\nHos\u{540d}: x\r\n\r\n",
+    "GET / HTTP/1.1\r\n\u{540d}\u{540d}: x\r\nHost: h\r\n\r\n",
+    "CONNECT  HTTP/1.1\r\n\r\n",
+    "CONNECT : HTTP/1.1\r\n\r\n",
+    "CONNECT [::1]:443 HTTP/1.1\r\n\r\n",
+    "CONNECT h:443\r\n\r\n",
+    "CONNECT\r\n\r\n",
+    "\r\n\r\n",
+    " \r\n\r\n",
+    "GET\r\n\r\n",
+    "GET  \r\n\r\n",
+    "\u{e9} \u{e9} \u{e9}\r\n\r\n",
+    "GET https://\u{540d}.example/\u{e9}?\u{fc} HTTP/1.1\r\n\r\n",
+    "GET h HTTP/1.1\r\nHost: h\r\n\r\n",
+    "GET ://h/ HTTP/1.1\r\nHost: h\r\n\r\n",
+    "GET http://h HTTP/1.1\r\nHost\r\n:\r\n\r\n",
+    "OPTIONS * HTTP/1.1\r\nHost: h:0\r\n\r\n",
+    "GET / HTTP/1.1\nHost: h\n\n\r\n\r\n",
+];
+
+const INSERTS: &[&str] = &["\u{e9}", "\u{540d}", "\u{1f600}", "\r\n", "\r", "\n", "\0", ":", "[", "]", "://", " ", "\t", "%", "@", "/", "?"];
+
+pub fn head_bytes(case: &HeadCase) -> Vec<u8> {
+    let mut b: Vec<u8> = match &case.base {
+        Some(req) => {
+            let built = req.build();
+            let mut v = built.header.into_bytes();
+            v.extend_from_slice(&req.body);
+            v
+        }
+        None if !case.raw.is_empty() => case.raw.clone(),
+        None => HOSTILE_HEADS[idx(case.template as u16 * 256, HOSTILE_HEADS.len())].as_bytes().to_vec(),
+    };
+    for (pos, which) in &case.inserts {
+        let at = idx(*pos, b.len() + 1);
+        let ins = INSERTS[(*which as usize) % INSERTS.len()].as_bytes();
+        b.splice(at..at, ins.iter().copied());
+    }
+    for (pos, v) in &case.flips {
+        if !b.is_empty() {
+            let at = idx(*pos, b.len());
+            b[at] = *v;
+        }
+    }
+    if let Some(t) = case.truncate {
+        let at = idx(t, b.len() + 1);
+        b.truncate(at);
+    }
+    b
+}
+
+/// What the listener does with the bytes it has read, minus the sockets: find the end of the
+/// header block, require UTF-8, parse and rewrite. Shared with the fuzz target.
+pub fn check_http_head(bytes: &[u8]) -> CaseResult {
+    let mut out = Outcome::new();
+    alloc_guard::reset();
+    let end = anytls_rs::client::http_proxy::verif_find_header_end(bytes);
+    let want = bytes.windows(4).position(|w| w == b"\r\n\r\n").map(|p| p + 4);
+    ensure!(end == want, "C20.clean", "end of the header block found at {:?}, the first CRLFCRLF ends at {:?}", end, want);
+    // the listener hands over exactly the header block; also try the whole input as a block
+    let mut accepted = false;
+    let mut utf8 = false;
+    for (head, body) in [(&bytes[..end.unwrap_or(bytes.len())], &bytes[end.unwrap_or(bytes.len())..]), (bytes, &bytes[bytes.len()..])] {
+        if let Ok(text) = std::str::from_utf8(head) {
+            utf8 = true;
+            match anytls_rs::client::http_proxy::verif_parse_and_rewrite(text, body.to_vec()) {
+                Ok(o) => {
+                    accepted = true;
+                    ensure!(o.body == body, "C20.clean", "the bytes behind the header block were altered");
+                }
+                Err(_) => {}
+            }
+        }
+    }
+    if alloc_guard::max_request() > alloc_guard::LIMIT {
+        return Err(Fail::plain("C20.alloc", format!("the HTTP head parser asked for {} bytes in one allocation", alloc_guard::max_request())));
+    }
+    out.nt(bytes.len() > 4);
+    out.class_if(accepted, "accepted");
+    out.class_if(!accepted, "rejected");
+    out.class_if(!utf8, "not-utf8");
+    out.class_if(bytes.iter().any(|c| *c >= 0x80) && utf8, "multi-byte-text");
+    Ok(out)
+}
+
+impl Family for HeadFam {
+    type Case = HeadCase;
+    fn name(&self) -> &'static str {
+        "http_head"
+    }
+    fn fixed_cases(&self, _tier: Tier) -> Vec<HeadCase> {
+        let mut v = Vec::new();
+        for t in 0..HOSTILE_HEADS.len() {
+            // the template itself, and a multi-byte character inserted at every position of it
+            let template = ((t * 65536 / HOSTILE_HEADS.len() + 65536 / HOSTILE_HEADS.len() / 2) / 256) as u8;
+            v.push(HeadCase { base: None, template, raw: vec![], flips: vec![], inserts: vec![], truncate: None });
+            let len = HOSTILE_HEADS[t].len();
+            for pos in 0..=len {
+                let mut p = ((pos << 16) / (len + 1)) as u16;
+                while idx(p, len + 1) < pos {
+                    p += 1;
+                }
+                v.push(HeadCase { base: None, template, raw: vec![], flips: vec![], inserts: vec![(p, (pos % 3) as u8)], truncate: None });
+            }
+        }
+        v
+    }
+    fn strategy(&self, _tier: Tier) -> BoxedStrategy<HeadCase> {
+        (
+            proptest::option::weighted(0.5, c17::req_strategy(false)),
+            any::<u8>(),
+            prop_oneof![3 => Just(Vec::new()), 1 => proptest::collection::vec(any::<u8>(), 1..120)],
+            proptest::collection::vec((any::<u16>(), prop_oneof![Just(b':'), Just(b'['), Just(b']'), Just(b' '), Just(b'/'), Just(0xC3u8), Just(0xA9u8), Just(b'\r'), Just(b'\n'), any::<u8>()]), 0..4),
+            proptest::collection::vec((any::<u16>(), any::<u8>()), 0..4),
+            proptest::option::weighted(0.25, any::<u16>()),
+        )
+            .prop_map(|(base, template, raw, flips, inserts, truncate)| HeadCase { base, template, raw, flips, inserts, truncate })
+            .boxed()
+    }
+    fn run(&self, case: &HeadCase, _cx: &CaseCtx) -> CaseResult {
+        check_http_head(&head_bytes(case))
     }
 }
 
